@@ -26,10 +26,14 @@ def strategy(draw, tier="quick"):
     mix = draw(gen.mixture(("NRTL", "UNIQUAC"), 0.5))
     t = draw(gen.feed_temperature)
     steps = draw(st.integers(1, 6))
+    mem = draw(gen.membrane(4, draw(st.sampled_from([("kg/(m2*h*kPa)",), ("kg/(m2*h*kPa)",), ("SI",), ("GPU",)]))))
+    if draw(st.integers(0, 3)) == 0:
+        t = mem["e1"][0]["T"]  # feed exactly at an experiment temperature (no Arrhenius correction on that branch)
+        mem["e2"][0]["T"] = t if draw(st.booleans()) else mem["e2"][0]["T"]
     c = {
         "mixture": mix, "model": draw(gen.model), "T": t, "x": draw(gen.mid_fraction()), "basis": draw(gen.basis),
         "perm": draw(gen.permeate(t)), "precision": draw(gen.precision),
-        "membrane": draw(gen.membrane(4)), "steps": steps, "removal": draw(gen.loguniform(1e-8, 0.2)),
+        "membrane": mem, "steps": steps, "removal": draw(gen.loguniform(1e-8, 0.2)),
         "ramp": draw(st.sampled_from([15.0, 1.0, 0.02, 1e-3])),
         "area": draw(gen.loguniform(1e-3, 1e3)), "amount": draw(gen.loguniform(1e-3, 1e3)),
         "program": draw(st.booleans()),
